@@ -331,8 +331,93 @@ def expand_big(c):
     return dict(c, amp=amp.tolist(), ph=g.integers(0, 8, size=(m, n)).tolist())
 
 
+def add_masks(rng, c, exhaustive=False):
+    """rectangular read-out masks [r0, r1, c0, c1] (inclusive, output samples of the full-period plane): every masked
+    window must be the full-period image restricted to the mask, and windows that contain one another must nest"""
+    R, Q = c['npix'][0] * c['os'], c['npix'][1] * c['os']
+    rects = []
+    if exhaustive:          # all row intervals x a few column intervals (even and odd extents, off-centre)
+        cols = [(0, Q - 1)]
+        if Q >= 2:
+            cols.append((Q // 2 - 1, Q // 2))
+            a = rng.randint(0, Q - 1)
+            cols.append((a, rng.randint(a, Q - 1)))
+        for c0, c1 in cols:
+            for r0 in range(R):
+                for r1 in range(r0, R):
+                    rects.append([r0, r1, c0, c1])
+    else:
+        for _ in range(rng.randint(1, 2)):          # one or two chains growing from a random seed rectangle
+            r0 = rng.randint(0, R - 1); r1 = rng.randint(r0, R - 1)
+            c0 = rng.randint(0, Q - 1); c1 = rng.randint(c0, Q - 1)
+            rects.append([r0, r1, c0, c1])
+            for _ in range(rng.randint(1, 3)):
+                r0 = rng.randint(0, r0); r1 = rng.randint(r1, R - 1)
+                c0 = rng.randint(0, c0); c1 = rng.randint(c1, Q - 1)
+                rects.append([r0, r1, c0, c1])
+        rects.append([0, R - 1, 0, Q - 1])
+    c['masks'] = rects
+    return c
+
+
+TIGHT_WL = ['650e-9', '532e-9', '1.064e-6', '500e-9', '632.8e-9', '1.0e-6', '1.55e-6', '405e-9']
+TIGHT_Z = ['10.0', '12.0', '3.0', '0.5', '7.3', '1.0', '25.4']
+TIGHT_D = ['1.0', '0.5', '0.1', '2.4', '0.35', '6.5', '0.0254']
+
+
+def tight_params(c):
+    wl, z = float(c['wl']), float(c['z'])
+    Dr, Dc = float(c['D'][0]), float(c['D'][1])
+    m, n = c['shape']
+    dx = (Dr / m, Dc / n)
+    du = (wl * z / Dr, wl * z / Dc)           # one period = (m, n) samples per unit of oversampling
+    return wl, z, dx, du
+
+
+def tight_side(c):
+    """where the floating-point quotient wavelength*z*oversample/(dx*du) falls relative to the exact integer"""
+    wl, z, dx, du = tight_params(c)
+    out = []
+    for k in range(2):
+        q = (wl * z * c['os']) / (dx[k] * du[k])
+        e = c['shape'][k] * c['os']
+        out.append('below' if q < e else 'above' if q > e else 'exact')
+    return out
+
+
+def gen_tight(rng, want):
+    """FFT / DFT over exactly one period at the TIGHTEST legal sampling (period == pupil size at oversample 1), with
+    ordinary decimal physical values; [want] asks for a quotient one ulp below / above / exactly at the integer"""
+    for _ in range(4000):
+        m = rng.randint(8, 40)
+        n = m if rng.random() < 0.6 else rng.randint(8, 40)
+        D = rng.choice(TIGHT_D)
+        c = {'op': 'tight', 'shape': [m, n], 'wl': rng.choice(TIGHT_WL), 'z': rng.choice(TIGHT_Z),
+             'D': [D, D if m == n or rng.random() < 0.5 else rng.choice(TIGHT_D)],
+             'os': rng.choice([1, 1, 1, 2, 3]), 'seed': rng.randrange(10 ** 6)}
+        if want in tight_side(c):
+            return c
+    return c
+
+
 def generate(rng, tier):
     n_cases = 110 if tier == 'quick' else 1500
+    for k in range(12 if tier == 'quick' else 120):
+        yield gen_tight(rng, ['below', 'below', 'exact', 'above'][k % 4])
+    out = 0
+    while out < (3 if tier == 'quick' else 25):          # exhaustive masked windows on a small output plane
+        c = gen_prop(rng, tier)
+        if c['npix'][0] * c['os'] > 7 or c['npix'][1] * c['os'] > 7 or case_L(c) > MAXL or not alpha_ok(c):
+            continue
+        out += 1
+        yield add_masks(rng, c, exhaustive=True)
+    out = 0
+    while out < (25 if tier == 'quick' else 300):        # chains of nested, off-centre masked windows
+        c = gen_prop(rng, tier)
+        if case_L(c) > MAXL or not alpha_ok(c):
+            continue
+        out += 1
+        yield add_masks(rng, c)
     out = 0
     while out < (4 if tier == 'quick' else 40):
         c = gen_big(rng)
@@ -369,6 +454,10 @@ def generate(rng, tier):
 
 
 def classify(c):
+    if c['op'] == 'tight':
+        return 'tight/os%d/%s' % (c['os'], '-'.join(tight_side(c)))
+    if c.get('masks'):
+        return 'prop/masked-windows/os%d/%s%s' % (c['os'], c['aniso'], '/segmented' if c.get('seg') else '')
     if c.get('big'):
         return 'prop/large/os%d/%s' % (c['os'], c['aniso'])
     if c['op'] == 'ffthist':
@@ -381,6 +470,8 @@ def classify(c):
 
 
 def nontrivial(c):
+    if c['op'] == 'tight':
+        return True
     if c.get('big'):
         return True
     if c['op'] == 'ffthist':
@@ -406,6 +497,8 @@ def supplied_root(q):
 
 
 def encode(c):
+    if c['op'] == 'tight':
+        return None          # non-dyadic physical values, pupils up to 40x40: decided by the energy oracle
     if c.get('big'):
         return None          # too large for the exact group ring: decided by the energy oracle
     if c['op'] == 'prop':
@@ -480,9 +573,97 @@ def decode(c, ints):
 
 
 # ------------------------------------------------------------------ implementation side (public API only)
+def run_tight(lentil, c):
+    wl, z, dx, du = tight_params(c)
+    m, n = c['shape']
+    os_ = c['os']
+    g = np.random.default_rng(c['seed'])
+    amp = g.uniform(0.5, 1.5, size=(m, n))
+    opd = g.uniform(-0.25, 0.25, size=(m, n)) * wl
+
+    def wavefront():
+        return lentil.Wavefront(wl) * lentil.Pupil(amplitude=amp, opd=opd, pixelscale=dx, focal_length=z)
+
+    pin = float(np.sum(np.abs(amp * np.exp(2j * np.pi * opd / wl)) ** 2))
+    w = wavefront()
+    res = {'pin_amp': pin, 'pin_field': float(np.sum(np.abs(w.field) ** 2))}
+    wf = lentil.propagate_fft(w, pixelscale=du, oversample=os_)                  # shape=None: the whole period
+    res['fft'] = float(np.sum(wf.intensity))
+    res['fft_grid'] = [int(v) for v in wf.intensity.shape]
+    wd = lentil.propagate_dft(wavefront(), pixelscale=du, shape=(m, n), oversample=os_)
+    res['dft'] = float(np.sum(wd.intensity))
+    res['dft_grid'] = [int(v) for v in wd.intensity.shape]
+    res['min'] = float(min(np.min(wf.intensity), np.min(wd.intensity)))
+    return res
+
+
+def oracle_tight(c, impl):
+    m, n = c['shape']
+    os_ = c['os']
+    pin = impl['pin_amp']
+    where = (f'{m}x{n} pupil, wavelength {c["wl"]}, z {c["z"]}, D {c["D"]}, oversample {os_}: one period is exactly '
+             f'{m * os_}x{n * os_} output samples (float quotient {"/".join(tight_side(c))} the integer)')
+    if not close(pin, impl['pin_field'], 1e-12):
+        return f'{where}: sum|Wavefront.field|^2 = {impl["pin_field"]!r}, sum|amplitude*phasor|^2 = {pin!r}'
+    if impl['min'] < 0:
+        return f'{where}: negative intensity sample {impl["min"]!r}'
+    if impl['fft_grid'][0] < m or impl['fft_grid'][1] < n:
+        return (f'{where}: propagate_fft used a grid of {impl["fft_grid"]} samples, smaller than the pupil - the field is '
+                f'cropped (total {impl["fft"]!r}, input power {pin!r})')
+    if not close(impl['fft'], pin):
+        return f'{where}: propagate_fft total {impl["fft"]!r} (grid {impl["fft_grid"]}) differs from the input power {pin!r}'
+    if impl['dft_grid'] != [m * os_, n * os_]:
+        return f'{where}: propagate_dft output shape {impl["dft_grid"]}'
+    if not close(impl['dft'], pin):
+        return f'{where}: propagate_dft total over one period {impl["dft"]!r} differs from the input power {pin!r}'
+    return None
+
+
+def run_masks(lentil, c, wavefront, fdu, os_):
+    full_shape = (int(c['npix'][0]), int(c['npix'][1]))
+    full = lentil.propagate_dft(wavefront(), pixelscale=fdu, shape=full_shape, oversample=os_).intensity
+    out = {'full': float(np.sum(full)), 'E': [], 'restricted': [], 'maxdiff': [], 'min': float(np.min(full))}
+    for r0, r1, c0, c1 in c['masks']:
+        mask = np.zeros(full.shape)
+        mask[r0:r1 + 1, c0:c1 + 1] = 1
+        img = lentil.propagate_dft(wavefront(), pixelscale=fdu, shape=full_shape, oversample=os_, mask=mask).intensity
+        out['E'].append(float(np.sum(img)))
+        out['restricted'].append(float(np.sum(full * mask)))
+        out['maxdiff'].append(float(np.max(np.abs(img - full * mask))) if img.shape == full.shape else None)
+        out['min'] = min(out['min'], float(np.min(img)))
+    return out
+
+
+def oracle_masks(c, r, pin):
+    if r['min'] < 0:
+        return f'masked windows: negative intensity sample {r["min"]!r}'
+    if not close(r['full'], pin):
+        return f'masked windows: the unmasked full-period image totals {r["full"]!r}, input power {pin!r}'
+    tol = TOL * pin
+    rects = c['masks']
+    for k, rc in enumerate(rects):
+        e = r['E'][k]
+        if r['maxdiff'][k] is None or r['maxdiff'][k] > tol:
+            return (f'window rows {rc[0]}..{rc[1]} cols {rc[2]}..{rc[3]} (mask=) is not the full-period image restricted to '
+                    f'the mask: max difference {r["maxdiff"][k]!r}, captured {e!r}, restriction holds {r["restricted"][k]!r}')
+        if e < -tol or e > pin + tol:
+            return f'window rows {rc[0]}..{rc[1]} cols {rc[2]}..{rc[3]} captures {e!r}, input power {pin!r}'
+    for i, a in enumerate(rects):
+        for j, b in enumerate(rects):
+            if i != j and b[0] <= a[0] and a[1] <= b[1] and b[2] <= a[2] and a[3] <= b[3] and r['E'][i] > r['E'][j] + tol:
+                return (f'window rows {b[0]}..{b[1]} cols {b[2]}..{b[3]} captures {r["E"][j]!r}, less than the window '
+                        f'rows {a[0]}..{a[1]} cols {a[2]}..{a[3]} it contains ({r["E"][i]!r})')
+    return None
+
+
 def run_impl(c):
     lentil = C.import_lentil()
     fresh_state(lentil)
+    if c['op'] == 'tight':
+        try:
+            return run_tight(lentil, c)
+        except Exception as e:
+            return {'err': type(e).__name__, 'msg': str(e)[:200]}
     c = expand_big(c)
     try:
         if c['op'] == 'normalize':
@@ -522,6 +703,8 @@ def run_impl(c):
         res = {'pin_amp': float(np.sum(np.abs(field_in) ** 2)), 'pin_field': float(np.sum(np.abs(w.field) ** 2)),
                'pin_intensity': float(np.sum(w.intensity))}
         res.update(window_energies(lentil, c, w, fdu, os_))
+        if c.get('masks'):
+            res['masks'] = run_masks(lentil, c, wavefront, fdu, os_)
         if c.get('between'):
             res['between'] = [run_between(lentil, c, b, wavefront, fdu, float(z), os_) for b in c['between']]
             res['after'] = window_energies(lentil, c, wavefront(), fdu, os_)
@@ -691,6 +874,8 @@ def oracle(c, impl):
         return f'{c["op"]} raised {impl["err"]}: {impl.get("msg", "")}'
     if c['op'] == 'ffthist':
         return oracle_hist(c, impl)
+    if c['op'] == 'tight':
+        return oracle_tight(c, impl)
     if c['op'] == 'normalize':
         p = float(Fraction(c['power']))
         if abs(impl['power'] - p) > (1e-6 if c.get('dtype') == 'float32' else 1e-12) * (1 + p):
@@ -706,6 +891,10 @@ def oracle(c, impl):
     msg = window_predicates(c, impl, pin, p, '')
     if msg:
         return msg
+    if c.get('masks'):
+        msg = oracle_masks(c, impl['masks'], pin)
+        if msg:
+            return msg
     if c.get('between'):
         for b, r in zip(c['between'], impl['between']):
             what = f'intermediate call {b}'
